@@ -87,7 +87,11 @@ class CHECK(Check):
             return "input lost, duplicated or reordered: concatenation of the elements' raw data differs from the content"
         if obs["written"] != content:
             return "written output differs from the content that was read"
-        for idx, raw in obs["elems"]:
+        nel = len(obs["elems"])
+        for ei, (idx, raw) in enumerate(obs["elems"]):
+            whole = (raw[-1:] == ([10] if b else "\n")) or ei == nel - 1
+            if idx == -1 and not whole:
+                return "default block does not hold a whole line" + (" [binary]" if b else "")
             if b:
                 first = bytes(raw[:1])
                 exp = -1
